@@ -192,17 +192,15 @@ Proof.
         destruct (raw_time (hget (bs "Last-Modified") (e_hdr e))) as [lm|]; [|unfold max64; lia].
         destruct (Z.ltb_spec lm d); [|unfold max64; lia].
         unfold time_sub, sat64, min64, max64.
-        assert (Z.max (-9223372036854775808) (Z.min 9223372036854775807 (d - lm)) / 10 <= (d - lm) / 10)
-          by (apply Z.div_le_mono; lia).
-        assert (Z.max (-9223372036854775808) (Z.min 9223372036854775807 (d - lm)) / 10 <= 9223372036854775807)
-          by (apply Z.div_le_upper_bound; lia).
-        assert (0 <= Z.max (-9223372036854775808) (Z.min 9223372036854775807 (d - lm)) / 10)
-          by (apply Z.div_pos; lia).
+        replace (Z.max (-9223372036854775808) (Z.min 9223372036854775807 (d - lm))) with (Z.min 9223372036854775807 (d - lm)) by lia.
+        assert (0 <= Z.min 9223372036854775807 (d - lm) / 10) by (apply Z.div_pos; lia).
+        assert (Z.min 9223372036854775807 (d - lm) / 10 <= 9223372036854775807) by (apply Z.div_le_upper_bound; lia).
         lia.
       * destruct (spec_heuristic_status (e_status e) || amem (bs "public") cc); [|unfold max64; lia].
         destruct (raw_time (hget (bs "Last-Modified") (e_hdr e))) as [lm|]; [|unfold max64; lia].
         destruct (Z.ltb_spec lm d); [|unfold max64; lia].
-        assert (0 <= (d - lm) / 10) by (apply Z.div_pos; lia). unfold max64; lia.
+        assert (0 <= Z.min max64 (d - lm) / 10) by (apply Z.div_pos; unfold max64; lia).
+        assert (Z.min max64 (d - lm) / 10 <= max64) by (apply Z.div_le_upper_bound; unfold max64; lia). lia.
     + destruct (raw_time (c :: ex)) as [x|]; cbv beta iota; [|unfold max64; lia].
       destruct (Z.ltb_spec d x); [|unfold max64; lia].
       unfold time_sub, sat64, min64, max64; lia.
